@@ -68,7 +68,11 @@ impl RIMT {
 
         // The header also contains a count of the number of devices,
         // so the sum needs an additional '1' added to it.
-        self.checksum.add(1);
+        // device count (32-bit, emitted from devices.len()); this runs before the push
+        let old_count = self.devices.len() as u32;
+        let new_count = old_count + 1;
+        self.checksum.delete(old_count.as_bytes());
+        self.checksum.append(new_count.as_bytes());
 
         self.header.checksum = self.checksum.value();
     }
